@@ -214,7 +214,7 @@ def main():
     chk.merge(core.parallel(shard, core.interleave(cases, core.NPROC * 2)))
     chk.assumptions += ["for dict input the property does not fix which survey is the reference; only the one-to-one partition structure is demanded",
                         "reference marginal likelihood (mc/ref/marginal.py, long double Cholesky)"]
-    return chk.finish()
+    return chk.finish(run_case)
 
 
 def replay(doc):
